@@ -7,9 +7,17 @@
 // earlier one) or DERIVED from the genuinely signed token of an earlier call (replayed as it is, or the same signature
 // with another payload / header, the same payload with another signature, ...). Every call is judged by the same per-call
 // oracle against the key set in force at the time of that call.
-// The claims of every token are valid for the verifier in use and carry fixed far-away time stamps (iat 2020,
-// exp 2100), so the signature / key / algorithm decision is the only thing that can reject a token and no
-// wall clock takes part in any decision. Soundness and completeness are judged in the same run.
+// The claims of most tokens are valid for the verifier in use and carry fixed far-away time stamps (iat 2020,
+// exp 2100), so the signature / key / algorithm decision is the only thing that can reject such a token; soundness and
+// completeness are judged in the same run. A share of the tokens (2/5 for the id_token_hint verifiers, 1/10 elsewhere)
+// fails a time check instead (exp 2023 / exp absent / iat 2096, or - op-hint - a verifier with MaxAge / MaxAgeIAT of one
+// hour): op.VerifyIDTokenHint documents that it hands the claims of such a hint back together with an
+// IDTokenHintExpiredError "as signature and other verifications succeeded", and the authorize and end_session endpoints
+// believe them - claims count as handed back whenever they come with no error OR with that error, and the same
+// conditions apply. All time stamps are fixed and years away from now: no wall clock takes part in any decision.
+// Request objects: the configured key set is the one registered for the client that makes the authorization request
+// (the outer client_id); the object's own client_id member (absent / empty / requester / other client / unknown) and iss
+// (requester / other registered client / unknown / absent) are generated independently of it and of the signing key.
 package c02
 
 import (
@@ -50,6 +58,9 @@ type TokSpec struct {
 	Sub      string  `json:"sub,omitempty"`       // assertions: subject if it differs from the issuer (needs Delegation)
 	EmbedJWK bool    `json:"embed_jwk,omitempty"` // header carries the signer's public key as "jwk"
 	Relation string  `json:"relation"`            // how signer / kid were derived from the key set (label only)
+	Time     string  `json:"time,omitempty"`      // time claims: "" iat 2020 / exp 2100 | expired (exp 2023) | exp-missing | iat-future (iat 2096)
+	Outer    string  `json:"outer,omitempty"`     // request objects: the client making the authorization request (outer client_id) if it is not Iss
+	CID      string  `json:"cid,omitempty"`       // request objects: the object's client_id member: "" = Iss | absent | empty | c1 | c2 | ghost (Iss "absent": no iss member)
 	Manips   []Manip `json:"manips,omitempty"`
 }
 
@@ -98,7 +109,8 @@ type Case struct {
 	FK         *FindKeySpec `json:"fk,omitempty"`
 	Raw        []byte       `json:"raw,omitempty"` // native fuzz: literal serialized token ($H $P $S $E placeholders), replaces manipulations
 	Seq        []Step       `json:"seq,omitempty"` // further calls on the same verifier / key-set / provider instance
-	Prov       *ProvOpts    `json:"prov,omitempty"` // prov-access / prov-hint / hint-http: verification options of op.NewProvider; Keys stays what the storage publishes
+	Prov       *ProvOpts    `json:"prov,omitempty"` // prov-access / prov-hint / hint-http / hint-end-http: verification options of op.NewProvider; Keys stays what the storage publishes
+	Stale      string       `json:"stale,omitempty"` // op-hint: the verifier has MaxAgeIAT ("iat") or MaxAge ("auth"; tokens carry auth_time 2020) of one hour: every token of the case fails a time check
 }
 
 // verifier kinds
@@ -108,6 +120,7 @@ const (
 	kOPAccess  = "op-access"     // op.VerifyAccessToken, op.OpenIDKeySet over the vkit store
 	kOPHint    = "op-hint"       // op.VerifyIDTokenHint, op.OpenIDKeySet over the vkit store
 	kHintHTTP  = "hint-http"     // id_token_hint through the authorize endpoint
+	kHintEnd   = "hint-end-http" // id_token_hint through the end_session endpoint
 	kAssert    = "jwt-assert"    // op.VerifyJWTAssertion, per-client keys from storage
 	kAssertKS  = "jwt-assert-ks" // op.VerifyJWTAssertion with NewJWTProfileVerifierKeySet (published set)
 	kReqObj    = "reqobj"        // op.ParseRequestObject called directly
@@ -117,10 +130,44 @@ const (
 	kProvHint  = "prov-hint"     // op.VerifyIDTokenHint with Provider.IDTokenHintVerifier of a provider built by op.NewProvider (default or configured key set / algorithms)
 )
 
-var tokenKinds = []string{kRPStatic, kRPRemote, kOPAccess, kOPHint, kHintHTTP, kAssert, kAssertKS, kReqObj, kReqHTTP, kProvAcc, kProvHint}
+var tokenKinds = []string{kRPStatic, kRPRemote, kOPAccess, kOPHint, kHintHTTP, kHintEnd, kAssert, kAssertKS, kReqObj, kReqHTTP, kProvAcc, kProvHint}
 
 func perClient(kind string) bool { return kind == kAssert || kind == kReqObj || kind == kReqHTTP }
-func isHTTP(kind string) bool    { return kind == kHintHTTP || kind == kReqHTTP }
+func isHTTP(kind string) bool    { return kind == kHintHTTP || kind == kReqHTTP || kind == kHintEnd }
+func isReqObj(kind string) bool  { return kind == kReqObj || kind == kReqHTTP }
+func isHint(kind string) bool {
+	return kind == kOPHint || kind == kProvHint || kind == kHintHTTP || kind == kHintEnd
+}
+
+// time claims a token may carry (TokSpec.Time)
+var timeKinds = []string{"", "expired", "exp-missing", "iat-future"}
+
+// timeFails: the token fails a time check of its verifier (by years, whatever the clock says).
+func timeFails(c Case) bool { return c.Tok.Time != "" || (c.Kind == kOPHint && c.Stale != "") }
+
+// requester: the client that makes the authorization request a request object is part of (per-client kinds otherwise: the issuer).
+func requester(c Case) string {
+	if isReqObj(c.Kind) && c.Tok.Outer != "" {
+		return c.Tok.Outer
+	}
+	return who(c)
+}
+
+// cidMember: the client_id member of a request object whose iss is (or would be) iss: value, present.
+func cidMember(tok TokSpec, iss string) (string, bool) {
+	switch tok.CID {
+	case "":
+		if iss == "absent" {
+			return "", false
+		}
+		return iss, true
+	case "absent":
+		return "", false
+	case "empty":
+		return "", true
+	}
+	return tok.CID, true
+}
 
 var (
 	allAlgs     = []string{"RS256", "RS384", "RS512", "PS256", "PS384", "PS512", "ES256", "ES384", "ES512", "EdDSA"}
@@ -135,7 +182,7 @@ func allowedAlgs(c Case) []string {
 			return defaultAlgs
 		}
 		return c.Algs
-	case kHintHTTP, kProvAcc, kProvHint:
+	case kHintHTTP, kHintEnd, kProvAcc, kProvHint:
 		if c.Prov != nil {
 			l := c.Prov.HintAlgs
 			if c.Kind == kProvAcc {
@@ -153,7 +200,9 @@ func allowedAlgs(c Case) []string {
 
 // ---- provider options: which key set / algorithm list is configured for which verifier ------------
 
-func isProv(kind string) bool { return kind == kHintHTTP || kind == kProvAcc || kind == kProvHint }
+func isProv(kind string) bool {
+	return kind == kHintHTTP || kind == kHintEnd || kind == kProvAcc || kind == kProvHint
+}
 
 // targetOf names the key set the verifier of `kind` is configured with: "storage" (what Storage.KeySet publishes; the
 // default), "access" / "hint" (the application's key set handed to op.WithAccessTokenKeySet / op.WithIDTokenHintKeySet).
@@ -339,6 +388,7 @@ func genCase(t *rapid.T) Case {
 	c.Kind = rapid.SampledFrom([]string{
 		kAssert, kAssert, kAssert, kRPRemote, kRPRemote, kRPRemote, kOPAccess, kOPAccess, kOPAccess, kReqObj, kReqObj, kOPHint, kOPHint,
 		kRPStatic, kRPStatic, kRPStatic, kHintHTTP, kAssertKS, kReqHTTP, kReqHTTP, kFindKey, kFindKey, kFindKey, kProvAcc, kProvAcc, kProvHint,
+		kHintEnd, kHintEnd, kProvHint,
 	}).Draw(t, "kind")
 	if isHTTP(c.Kind) {
 		c.Router = rapid.SampledFrom([]string{"provider", "legacy"}).Draw(t, "router")
@@ -351,9 +401,12 @@ func genCase(t *rapid.T) Case {
 			// including lists that name nothing a public key can verify (the verifier must then believe nothing, not fall back)
 			c.Algs = rapid.SliceOfNDistinct(rapid.SampledFrom(allowListPool), 1, 4, rapid.ID[string]).Draw(t, "algsfreelist")
 		}
-	case kHintHTTP, kProvAcc, kProvHint:
+	case kHintHTTP, kHintEnd, kProvAcc, kProvHint:
 		c.Algs = []string{rapid.SampledFrom(allAlgs).Draw(t, "hintalg")}
 		genProvOpts(t, &c)
+	}
+	if c.Kind == kOPHint {
+		c.Stale = rapid.SampledFrom([]string{"", "", "", "", "", "", "iat", "auth"}).Draw(t, "stale")
 	}
 	if c.Kind == kFindKey {
 		return genFindKey(t, c)
@@ -379,6 +432,7 @@ func genCase(t *rapid.T) Case {
 			genPublished(t, &c, allowed)
 		}
 	}
+	c.Tok.Time = genTime(t, c.Kind, "")
 	if c.Kind == kAssert || c.Kind == kAssertKS {
 		// a verifier that allows delegation (custom SubjectCheck): the subject may be another registered client or a user,
 		// the key must still be one registered for the issuer
@@ -399,6 +453,65 @@ func genCase(t *rapid.T) Case {
 	}
 	genSeq(t, &c, allowed, seqLen)
 	return c
+}
+
+// genTime draws the time claims of a freshly signed token: 2/5 of the id_token_hints and 1/10 of the other tokens fail a
+// time check (request objects carry no time claims).
+func genTime(t *rapid.T, kind, l string) string {
+	if isReqObj(kind) {
+		return ""
+	}
+	pool := []string{"", "", "", "", "", "", "", "", "", "", "", "", "", "", "", "", "", "", "expired", "iat-future"}
+	if isHint(kind) {
+		pool = []string{"", "", "", "", "", "", "expired", "expired", "exp-missing", "iat-future"}
+	}
+	return rapid.SampledFrom(pool).Draw(t, l+"time")
+}
+
+// genReqObjShape: half of the request objects are what a client library emits (iss = client_id = the requesting client);
+// the others are used in the authorization request of ANOTHER client than their iss names (a registered one with its own
+// keys, or an unknown one), and / or their client_id member is absent, empty, the requester, the other client or unknown,
+// and now and then they have no iss. The signing key stays what the relation chose relative to iss (iss's key, the other
+// registered client's key, an unregistered key).
+func genReqObjShape(t *rapid.T, c *Case, l string) {
+	tok := &c.Tok
+	if rapid.IntRange(0, 9).Draw(t, l+"roshape") < 5 {
+		return
+	}
+	switch rapid.SampledFrom([]string{"iss", "iss", "other", "other", "other", "ghost"}).Draw(t, l+"roouter") {
+	case "other":
+		tok.Outer = otherWho(tok.Iss)
+	case "ghost":
+		tok.Outer = "ghost"
+	}
+	if rapid.IntRange(0, 7).Draw(t, l+"ronoiss") == 0 {
+		if tok.Outer == "" {
+			tok.Outer = tok.Iss
+		}
+		tok.Iss = "absent"
+	}
+	req := tok.Outer
+	if req == "" {
+		req = tok.Iss
+	}
+	switch rapid.SampledFrom([]string{"absent", "absent", "absent", "empty", "requester", "iss", "other", "ghost"}).Draw(t, l+"rocid") {
+	case "absent":
+		tok.CID = "absent"
+	case "empty":
+		tok.CID = "empty"
+	case "requester":
+		tok.CID = req
+	case "other":
+		tok.CID = otherWho(req)
+	case "ghost":
+		tok.CID = "ghost"
+	}
+	if tok.Outer == tok.Iss {
+		tok.Outer = ""
+	}
+	if tok.CID == tok.Iss {
+		tok.CID = ""
+	}
 }
 
 // ---- provider options -------------------------------------------------------------
@@ -635,8 +748,82 @@ func sameKeys(a, b []KeyEntry) bool {
 	return true
 }
 
+// genWithdrawSeq: the scenario "a key is withdrawn, and the token it signed comes back": before call 2 the signer of the first
+// token disappears from the key set in force for the case's verifier (set emptied, entry removed, another key under the
+// same kid, use changed to enc); then n-1 (0-2) calls with tokens the instance cannot have seen (another key; unknown kid,
+// no kid or the signer's kid - what makes a caching key set look at its source again); finally the genuine first token is
+// presented again (same signature bytes).
+func genWithdrawSeq(t *rapid.T, c *Case, allowed []string, n int) {
+	tg := targetOf(*c, c.Kind)
+	keys, keys2 := keySets(*c)[tg], c.Keys2
+	second := perClient(c.Kind) && requester(*c) == "c2"
+	set := keys
+	if second {
+		set = keys2
+	}
+	signer := c.Tok.Key
+	op := rapid.SampledFrom([]string{"clear", "clear", "remove", "remove", "replace-key", "set-use"}).Draw(t, "wdop")
+	if op == "set-use" && perClient(c.Kind) {
+		op = "remove"
+	}
+	var out []KeyEntry
+	for _, e := range set {
+		if e.Key != signer {
+			if op != "clear" {
+				out = append(out, e)
+			}
+			continue
+		}
+		switch op {
+		case "replace-key":
+			e.Key, e.Alg = otherKeyLike(signer, append(append([]KeyEntry{}, set...), out...)), ""
+			out = append(out, e)
+		case "set-use":
+			e.Use = "enc"
+			out = append(out, e)
+		}
+	}
+	if op != "clear" && sameKeys(out, set) { // the signer was not in the set
+		op, out = "clear", nil
+	}
+	mut := op
+	if perClient(c.Kind) {
+		mut = map[bool]string{false: "c1:", true: "c2:"}[second] + op
+	}
+	if second {
+		keys2 = out
+	} else {
+		keys = out
+	}
+	for i := 0; i < n; i++ {
+		l := fmt.Sprintf("w%d", i)
+		var st Step
+		if i == 0 {
+			st.Mut, st.Keys, st.Keys2 = mut, keys, keys2
+		}
+		if i == n-1 {
+			st.From = 1
+			st.Tok = c.Tok
+			st.Tok.Manips = nil
+		} else {
+			f := c.Tok
+			f.Manips, f.EmbedJWK, f.Relation = nil, false, "unseen"
+			f.Key = otherKeyLike(signer, append(append([]KeyEntry{}, set...), out...))
+			f.KID = rapid.SampledFrom([]string{"k9", "k9", "", c.Tok.KID}).Draw(t, l+"kid")
+			f.HasKID = f.KID != ""
+			f.Alg = pickAlg(t, f.Key, allowed)
+			st.Tok = f
+		}
+		c.Seq = append(c.Seq, st)
+	}
+}
+
 // genSeq appends n further calls on the same instance.
 func genSeq(t *rapid.T, c *Case, allowed []string, n int) {
+	if n > 0 && rapid.IntRange(0, 4).Draw(t, "withdraw") == 0 {
+		genWithdrawSeq(t, c, allowed, n)
+		return
+	}
 	type version struct{ keys, keys2 []KeyEntry }
 	// key sets by target name ("" for the kinds with one key set; storage / access / hint for a provider)
 	orig := keySets(*c)
@@ -738,6 +925,7 @@ func genSeq(t *rapid.T, c *Case, allowed []string, n int) {
 			}
 			st.Tok = tmp.Tok
 			st.Tok.Sub = c.Tok.Sub
+			st.Tok.Time = genTime(t, kind, l)
 			if old {
 				st.Tok.Relation = "old:" + st.Tok.Relation
 			}
@@ -818,6 +1006,9 @@ func genPerClient(t *rapid.T, c *Case, allowed []string) {
 			tok.Key, tok.KID, tok.HasKID = rapid.SampledFrom(vkit.KeyNames).Draw(t, "signer"), "k1", true
 		}
 		tok.Alg = pickAlg(t, tok.Key, allowed)
+		if isReqObj(c.Kind) {
+			genReqObjShape(t, c, "")
+		}
 		return
 	}
 	e := rapid.SampledFrom(own).Draw(t, "entry")
@@ -851,6 +1042,9 @@ func genPerClient(t *rapid.T, c *Case, allowed []string) {
 		tok.EmbedJWK = true
 	}
 	tok.Alg = pickAlg(t, tok.Key, allowed)
+	if isReqObj(c.Kind) {
+		genReqObjShape(t, c, "")
+	}
 }
 
 var manipKinds = []string{
@@ -965,14 +1159,15 @@ func keySetShape(keys []KeyEntry) string {
 
 var prop = vkit.Prop[Case]{
 	ID: "C02",
-	Rule: "cases = verifier kind (rp.VerifyIDToken with static and remote key set, op.VerifyAccessToken / VerifyIDTokenHint over op.OpenIDKeySet and over the verifiers of a provider built by op.NewProvider, id_token_hint and request object through the authorize endpoint of both routers, " +
+	Rule: "cases = verifier kind (rp.VerifyIDToken with static and remote key set, op.VerifyAccessToken / VerifyIDTokenHint over op.OpenIDKeySet and over the verifiers of a provider built by op.NewProvider, id_token_hint and request object through the authorize endpoint and id_token_hint through the end_session endpoint of both routers, " +
 		"op.VerifyJWTAssertion with per-client and published keys, op.ParseRequestObject, oidc.FindMatchingKey) x key set (0-4 keys, kid present/absent/duplicate/prefix-related, use sig/enc/empty, RSA/EC/Ed mixed) x allowed-alg list (default, explicit, misconfigured with HS*/none) " +
 		"x genuinely signed token (trusted / other key same kid / wrong kid / no kid / embedded jwk) with 0-2 manipulations (unsigned, alg=none, HS with public key, header/payload/signature tampering, signature of another payload, re-encoding, truncation, extra segment, whitespace, JSON flattened/general, two signatures, dotted unprotected header smuggling an evil payload); " +
-		"60% of the token cases continue with 1-3 further calls on the SAME verifier / key set / provider / storage instance: before a call the served key set may change (remove, add, replace key under the same kid, change kid / use, clear, restore; per-client kinds: the registration of either client), the token is freshly signed (against the set in force or an earlier one) or derived from the genuinely signed token of an earlier call (same signature bytes: replayed, or 1-2 manipulations); every call is judged against the key set in force at that call " +
+		"60% of the token cases continue with 1-3 further calls on the SAME verifier / key set / provider / storage instance: before a call the served key set may change (remove, add, replace key under the same kid, change kid / use, clear, restore; per-client kinds: the registration of either client), the token is freshly signed (against the set in force or an earlier one) or derived from the genuinely signed token of an earlier call (same signature bytes: replayed, or 1-2 manipulations); every call is judged against the key set in force at that call; 1/5 of the sequences are the scenario 'the signer of the first token is withdrawn (set emptied / entry removed / other key under its kid / use enc), 0-2 calls with tokens of an unseen key (unknown, absent or the same kid), then the genuine first token again' " +
 		"(rp remote key set: rejection / acceptance demanded only if the set served now and the last two downloaded answers agree - its cache refresh is C13's subject). " +
 		"provider kinds (prov-access, prov-hint, hint-http): the verification options of op.NewProvider are generated - none / WithAccessTokenKeySet / WithIDTokenHintKeySet / both (each custom set: 0-4 pool keys, disjoint from / overlapping with / equal to the set the storage publishes), WithSupportedAccessTokenSigningAlgorithms and WithSupportedIDTokenHintSigningAlgorithms each absent (library default) or a generated list, option order - and every verifier is judged against the key set and the algorithm list configured for IT (the storage's set / the default list when the option is absent), never the other verifier's; " +
 		"3/4 of the tokens relate to the set in force for the verifier, 1/4 to another set the provider knows (storage set while a custom one is configured, the other verifier's set), 1/8 use an algorithm only the other verifier's list allows; in a sequence 1/3 of the further calls go to the OTHER verifier of the same provider and key-set changes hit the set in force for the verifier called (1/6 of the provider cases keep the fixed option set of vkit.Build); " +
-		"claims otherwise valid with fixed far time stamps (no clock). labels count calls. non-trivial = >=1 manipulation or >=2 candidate keys or >=2 calls (findkey: >=2 keys); distinct = (kind, router, manipulation set, key-set shape, allowed list, token alg/kid relation, verdict, provider options (which key-set options, shapes of the custom sets, both algorithm lists, order); per further call: key-set change, source call, manipulation set, key-set shape, alg, verdict, verifier called)",
+		"time claims: fixed far time stamps (iat 2020, exp 2100) so that the signature decision is the only thing that can reject - except for 2/5 of the id_token_hints and 1/10 of the other tokens (request objects have none), which fail a time check by years (exp 2023, exp absent, iat 2096; op-hint also: verifier with MaxAgeIAT / MaxAge of one hour): crossed with every key relation and manipulation; op.VerifyIDTokenHint hands claims back with nil error OR with an IDTokenHintExpiredError (what the authorize and end_session endpoints believe) and both count as accepted for soundness and for claims = signed payload (acceptance of a token that fails a time check is never demanded); id_token_hint also through the end_session endpoint of both routers (believed = the subject whose session is ended); " +
+		"request objects: half are ordinary (iss = client_id = requesting client), the others cross the requesting client (outer client_id: the client iss names / the other registered client / unknown) x iss (a registered client / unknown / absent) x client_id member (absent / empty / requester / other client / unknown) x signing key (iss's, the other client's, unregistered): the configured key set is what is registered for the REQUESTING client, acceptance is demanded only when iss = client_id = requester (the agreement rules themselves are C14's) and the claims of a refused object must not be copied; (no wall clock in any decision). labels count calls. non-trivial = >=1 manipulation or >=2 candidate keys or >=2 calls (findkey: >=2 keys); distinct = (kind, router, manipulation set, key-set shape, allowed list, token alg/kid relation, time claims, request-object shape, verdict, provider options (which key-set options, shapes of the custom sets, both algorithm lists, order); per further call: key-set change, source call, manipulation set, key-set shape, alg, verdict, verifier called)",
 	Gen: genCase,
 	Run: run,
 }
